@@ -160,6 +160,7 @@ CHECKS = {
                       "transport.Send when another goroutine ends the session concurrently is outside the claim (instruction-level schedule).",
         "runs": [
             {"harness": "HarnessC06Send", "grid": {"op": [0, 1, 2, 3, 4, 5]}, "reach": ["c06:not-established"]},
+            {"harness": "HarnessC06AfterEnd", "grid": {"end": [0, 1, 2, 3], "buf": [0, 1]}, "reach": ["c06:session-ended"], "threads": True},
             {"harness": "HarnessC06Inject", "grid": {"role": [0, 1]}, "params": {"depth": 3, "enccfg": 2, "transport": 0},
              "reach": ["c06:data-envelope-before-establishment"], "tier": "quick"},
             {"harness": "HarnessC06Inject", "grid": {"role": [0, 1], "enccfg": [0, 2], "transport": [0, 2]}, "params": {"depth": 5},
@@ -211,6 +212,7 @@ CHECKS = {
                       "side (applies the confirmed values before its next receive) is covered by the C08 harness.",
         "level_note": "Trusted: SSA->SMT executor, z3; TLS itself is a stub (SetEncryption records the switch). Bounds: script depth 4 / 6.",
         "runs": [
+            {"harness": "HarnessC08Client", "params": {"depth": 4}, "reach": ["c09:client-got-confirmation"]},
             {"harness": "HarnessC09Server", "grid": {"enccfg": [0, 1, 2, 3], "transport": [0, 1, 2]}, "params": {"depth": 4}, "skip": INSANE,
              "reach": ["c09:handshake-returned"], "tier": "quick"},
             {"harness": "HarnessC09Server", "grid": {"enccfg": [0, 1, 2, 3], "transport": [0, 1, 2], "setfails": [0, 1]}, "params": {"depth": 6}, "skip": INSANE,
